@@ -161,3 +161,16 @@ def register(check):
           floors={"quick": {"identity_runs": 180, "identity_handler_reads": 3000, "identity_caller_reads": 1500},
                   "thorough": {"identity_runs": 7000, "identity_handler_reads": 100000, "identity_caller_reads": 50000}},
           assumptions=COMMON_ASSUMPTIONS + ["peer equality is not asserted for nested reverse tunnels, whose opening call (a tunneled client stream) carries no peer"])
+    check("C15",
+          level="exploration",
+          engine="E2-stress",
+          race=True,
+          max_workers=8,
+          case_timeout="180s",
+          rule="free-running stress outside the bubble, built with -race: 4/16/64 goroutines each running 2-4 PRNG RPC scripts of every shape with every call option (Header/Trailer/Peer/WithTunnelChannel/PerRPCCredentials; Header() early, Trailer() and option targets read right after the terminal result), "
+               "while other goroutines query the registry and channel accessors and open/stop/graceful-stop extra tunnels; ends: drain, InitiateShutdown, or Close/Stop x3 concurrently mid-traffic; plus 16 goroutines of unary calls with grpc.Header/grpc.Trailer targets read right after Invoke returns while the tunnel is closed / stopped / the calls cancelled; x {forward, reverse, nested-ff, nested-rf} x {in-memory carrier with concurrency canaries and capacity 1-8, real grpc-go over loopback TCP}; "
+               "Gosched bursts and 0-300us sleeps at every yield point; verdict = zero de-duplicated race reports, zero canary overlaps, no panic, no watchdog; non-trivial = scenario produced RPC traffic; distinct = distinct (cfg, op/outcome shape)",
+          nontrivial="stress_rpcs",
+          floors={"quick": {"stress_runs": 60, "stress_rpcs": 2000, "delivery_msgs_checked": 3000, "outcome_checked": 1000, "invokeclose_runs": 40, "invokeclose_calls": 3000},
+                  "thorough": {"stress_runs": 1500, "stress_rpcs": 50000}},
+          assumptions=COMMON_ASSUMPTIONS + ["race reports vary from run to run; the race detector only sees the interleavings that occurred", "wire/window monitors run only on the in-memory carrier"])
